@@ -26,7 +26,9 @@
 (***************************************************************************)
 EXTENDS Integers, Sequences, FiniteSets, TLC, Json, IOUtils
 
-CONSTANT Focus   \* "auth" | "batch" | "files": which property's conjuncts are verdict-relevant (all are evaluated)
+CONSTANTS Focus,  \* "auth" | "batch" | "files": which property's conjuncts are part of the verdict
+          Strict  \* TRUE: the maintenance operations (backup, restore, rollback, clear, convert, copy) must also have their
+                  \* documented effect on the content - beyond the listed properties, reported as extension findings
 
 Rec == ndJsonDeserialize(IOEnv.TRACE)
 
@@ -67,7 +69,7 @@ Permitted(e, u) ==
   IF e.op \in AdminOps \/ e.admin_api THEN u = "admin"
   ELSE IF e.op \in SessionOps THEN TRUE
   ELSE IF e.op = "db_add" THEN u = e.owner
-  ELSE IF Need(e.op) = "owner" THEN u = e.owner /\ Key(e) \in DOMAIN dbs
+  ELSE IF Need(e.op) = "owner" THEN u = e.owner     \* existence of the database is a precondition of the effect
   ELSE IF e.op = "db_user_remove" THEN Has(u, Key(e), "admin") \/ (u = e.user /\ Has(u, Key(e), "read"))
   ELSE Has(u, Key(e), Need(e.op))
 
@@ -125,8 +127,8 @@ ObsDbs(o) == [k \in {<<o.dbs[i].owner, o.dbs[i].db>> : i \in DOMAIN o.dbs} |->
                 [kind |-> d.kind, nodes |-> d.nodes, edges |-> d.edges, aliases |-> Range(d.aliases),
                  audit |-> [j \in DOMAIN d.audit |-> <<d.audit[j][1], d.audit[j][2]>>], backup |-> d.backup]]
 ObsRoles(o) ==
-  LET P == {<<o.dbs[i].roles[j][1], o.dbs[i].owner, o.dbs[i].db, o.dbs[i].roles[j][2]>> :
-              i \in DOMAIN o.dbs, j \in DOMAIN o.dbs[i].roles} IN
+  LET P == UNION {{<<o.dbs[i].roles[j][1], o.dbs[i].owner, o.dbs[i].db, o.dbs[i].roles[j][2]>> :
+                     j \in DOMAIN o.dbs[i].roles} : i \in DOMAIN o.dbs} IN
   [k \in {<<p[1], p[2], p[3]>> : p \in {q \in P : q[1] # q[2]}} |->
      (CHOOSE p \in P : <<p[1], p[2], p[3]>> = k)[4]]
 ObsDistinct(o) == Cardinality({<<o.dbs[i].owner, o.dbs[i].db>> : i \in DOMAIN o.dbs}) = Len(o.dbs)
@@ -169,6 +171,9 @@ Effect(e, u, nu, nd, nr) ==
     [] e.op = "db_user_remove" ->
          /\ k \in DOMAIN dbs /\ e.user # e.owner
          /\ nu = users /\ nd = dbs /\ nr = Drop(roles, {<<e.user, e.owner, e.db>>})
+    [] e.op \in {"backup", "restore", "rollback", "clear", "convert"} /\ ~Strict ->
+         \* property level (C24): a performed maintenance operation touches nothing but its own database
+         /\ k \in DOMAIN dbs /\ nu = users /\ nr = roles /\ DOMAIN nd = DOMAIN dbs /\ SameDbsExcept({k}, nd)
     [] e.op = "backup" -> /\ nu = users /\ nr = roles /\ nd = [dbs EXCEPT ![k].backup = TRUE]
     [] e.op = "restore" -> /\ dbs[k].backup /\ k \in DOMAIN bk /\ nu = users /\ nr = roles
                            /\ nd = [dbs EXCEPT ![k] = [WithContent(@, bk[k]) EXCEPT !.audit = bk[k].audit]]
@@ -186,7 +191,7 @@ Effect(e, u, nu, nd, nr) ==
          LET t == <<(IF e.admin_api THEN e.new_owner ELSE u), e.new_db>> IN
          /\ k \in DOMAIN dbs /\ t \notin DOMAIN dbs /\ nu = users /\ nr = roles
          /\ DOMAIN nd = DOMAIN dbs \cup {t} /\ SameDbsExcept({t}, nd)
-         /\ Content(nd[t]) = Content(dbs[k]) /\ nd[t].kind = dbs[k].kind /\ ~nd[t].backup
+         /\ (Strict => Content(nd[t]) = Content(dbs[k]) /\ nd[t].kind = dbs[k].kind /\ ~nd[t].backup)
     [] e.op = "rename" ->
          LET t == <<(IF e.admin_api THEN e.new_owner ELSE e.owner), e.new_db>> IN
          IF t = k THEN nu = users /\ nd = dbs /\ nr = roles
@@ -216,7 +221,7 @@ Same == UNCHANGED <<users, tokens, dbs, roles, bk, ghost, files, pend>>
 TReset == IsEvent("Reset") /\ users' = {} /\ tokens' = EmptyF /\ dbs' = EmptyF /\ roles' = EmptyF /\ bk' = EmptyF
           /\ ghost' = {} /\ files' = {} /\ pend' = None
 
-TLogin == /\ IsEvent("login") /\ pend = None
+TLogin == /\ IsEvent("login")
           /\ IF Ok(E.status)
              THEN /\ E.user \in users \cup {"admin"} /\ E.good_password
                   /\ tokens' = (E.token :> E.user) @@ tokens
